@@ -45,6 +45,8 @@ theorem fund {D a b D'} (h : HR D a b D') : HSound HQ D a b D' := by
   | genL h => exact h HQ HQ_refl
   | genB h => exact h HQ HQ_refl
   | genRep h => exact h HQ HQ_refl
+  | dropLocal hp _ ih => exact dropLocal_sound hp ih
+  | addLocal hp _ ih => exact addLocal_sound hp ih
   | paren _ ih => exact SoundE.paren ih
   | un _ ih => exact SoundE.un ih
   | bin _ _ ih1 ih2 => exact SoundE.bin ih1 ih2
